@@ -311,6 +311,11 @@ type Int struct {
 	Base    Sym      // affine form: value == value-of-Base + Off (mod 2^W), valid if HasBase
 	Off     int64
 	HasBase bool
+	Not     []int64 // values inside [Lo,Hi] the number is known not to be (small ranges only)
+	// RelVID/RelOff: this number equals (the number with identity RelVID) + RelOff,
+	// computed without wrap-around; lets two offsets of one quantity be ordered.
+	RelVID int64
+	RelOff int64
 }
 
 type Bool struct {
@@ -356,6 +361,9 @@ type Slice struct {
 	Off  *Int    // offset of element 0 within the array
 	Len  *Int
 	Elem types.Type
+	// LenRef, if set, names "the slice held by the cell this value was loaded from"
+	// (see tagSliceSource); an index carrying LtLen == LenRef is in bounds.
+	LenRef *Object
 }
 
 type Iface struct {
@@ -684,6 +692,18 @@ func (v *Int) normalize() *Int {
 		}
 		if !unbounded && int64(mx) < v.Hi {
 			v.Hi = int64(mx)
+		}
+		// known-zero low bits: the value is a multiple of 2^tz
+		tz := 0
+		for tz < w && tz < 62 && v.Bits[tz].K == BZero {
+			tz++
+		}
+		if tz > 0 && tz < 62 && v.Hi < math.MaxInt64 {
+			m := int64(1) << uint(tz)
+			if r := v.Lo % m; r != 0 && v.Lo+(m-r) > v.Lo {
+				v.Lo += m - r
+			}
+			v.Hi -= v.Hi % m
 		}
 		if v.Lo > v.Hi {
 			// contradictory facts: the value is unreachable; keep it well formed
